@@ -42,14 +42,25 @@ def gen_config(rng, small=False):
     }
 
 
-def gen_case(rng, n_genes=None, n_records=None, cluster=None, config=None, mix=None):
+PARALOG_SHARE = 0.2
+
+
+def gen_case(rng, n_genes=None, n_records=None, cluster=None, config=None, mix=None, paralog=None):
     n_genes = n_genes or rng.randint(3, 9)
     n_records = n_records or rng.randint(8, 26)
     cluster = (rng.random() < 0.3) if cluster is None else cluster
-    texts, anno, genome = workload.gen_reference(rng, n_genes)
+    paralog = (rng.random() < PARALOG_SHARE) if paralog is None else paralog
+    mirror = []
+    if paralog:
+        # every gene has a near-identical paralog: variant and W>F peptides collide with canonical ones
+        texts, anno, genome, mirror = workload.gen_paralog_reference(rng, max(2, (n_genes + 1) // 2))
+    else:
+        texts, anno, genome = workload.gen_reference(rng, n_genes)
     var_lines, circ_lines, stats = workload.gen_records(
         rng, anno, genome, n_records, mix=mix, cluster=cluster,
         intronic_only_txs=rng.choice([0, 0, 1, 1, 2]))
+    var_lines = var_lines + [l for l in mirror if l not in var_lines]
+    stats['paralog_mirror_snvs'] = len(mirror)
     var_lines.sort(key=workload.line_tx_id)
     circ_lines.sort(key=workload.line_tx_id)
     tx_order = [t for t in anno.transcripts.keys()]
@@ -146,7 +157,8 @@ def random_layout(rng, case, allow_index_dir=True):
             parts = [idx[k::nf] for k in range(nf)]
         for p in parts:
             if p:
-                files.append({'circ': is_circ, 'lines': p, 'idx': rng.random() < 0.4})
+                files.append({'circ': is_circ, 'lines': p, 'idx': rng.random() < 0.4,
+                              'utf8': rng.random() < 0.3})
     rng.shuffle(files)
     index_dir = False
     if allow_index_dir:
@@ -237,7 +249,9 @@ def materialise(case, layout, workdir, tag):
         src = case['circ_lines'] if f['circ'] else case['var_lines']
         lines = [src[i] for i in f['lines']]
         p = d / f"{'c' if f['circ'] else 'v'}{k}.gvf"
-        p.write_text(workload.gvf_text(lines, f['circ']))
+        # (a non-ASCII path in the ##genome_fasta header line: byte offsets then differ from character offsets)
+        p.write_text(workload.gvf_text(
+            lines, f['circ'], genome_fasta='/data/José/références/génome.fa' if f.get('utf8') else None))
         if f.get('idx'):
             _cli('indexGVF', cvrun.build_gvf_idx, p)
         files.append(p)
